@@ -52,3 +52,42 @@ pub assume_specification<T, U, F: FnOnce(T) -> U + std::marker::Destruct>[Option
     where U: std::marker::Destruct
     requires o is Some ==> call_requires(f, (o->0,)),
     ensures o is None ==> r == default, o is Some ==> call_ensures(f, (o->0,), r);
+
+// N9: `map.into_iter().collect()` / N28: `for key in map.keys()` -- a HashMap as SOME vector of its entries / keys:
+// every entry exactly once, in an unspecified order (deliberately weak: nothing order-dependent can be proved from it)
+#[verifier::external_body]
+pub fn hashmap_into_vec<K: Eq + Hash, V>(m: HashMap<K, V>) -> (r: Vec<(K, V)>)
+    ensures
+        vstd::std_specs::hash::obeys_key_model::<K>() && vstd::std_specs::hash::builds_valid_hashers::<std::hash::RandomState>() ==> {
+            &&& forall|i: int| 0 <= i < r@.len() ==> m@.contains_key((#[trigger] r@[i]).0) && m@[r@[i].0] == r@[i].1
+            &&& forall|i: int, j: int| 0 <= i < j < r@.len() ==> (#[trigger] r@[i]).0 != (#[trigger] r@[j]).0
+            &&& forall|k: K| m@.contains_key(k) ==> exists|i: int| 0 <= i < r@.len() && (#[trigger] r@[i]).0 == k
+        },
+{ m.into_iter().collect() }
+
+#[verifier::external_body]
+pub fn hashmap_keys_vec<'a, K: Eq + Hash, V>(m: &'a HashMap<K, V>) -> (r: Vec<&'a K>)
+    ensures
+        vstd::std_specs::hash::obeys_key_model::<K>() && vstd::std_specs::hash::builds_valid_hashers::<std::hash::RandomState>() ==> {
+            &&& forall|i: int| 0 <= i < r@.len() ==> m@.contains_key(*(#[trigger] r@[i]))
+            &&& forall|k: K| m@.contains_key(k) ==> exists|i: int| 0 <= i < r@.len() && *(#[trigger] r@[i]) == k
+        },
+{ m.keys().collect() }
+
+// N28 (with hashmap_keys_vec): the value of a key that is known to be present (`for (key, value) in &map`)
+#[verifier::external_body]
+pub fn hashmap_get_present<'a, K: Eq + Hash, V>(m: &'a HashMap<K, V>, k: &K) -> (r: &'a V)
+    requires m@.contains_key(*k),
+    ensures *r == m@[*k],
+{ m.get(k).unwrap() }
+
+// N9: `for key in hash_set` -- a HashSet as SOME vector of its elements, each exactly once
+#[verifier::external_body]
+pub fn hashset_into_vec<K: Eq + Hash>(s: HashSet<K>) -> (r: Vec<K>)
+    ensures
+        vstd::std_specs::hash::obeys_key_model::<K>() && vstd::std_specs::hash::builds_valid_hashers::<std::hash::RandomState>() ==> {
+            &&& forall|i: int| 0 <= i < r@.len() ==> s@.contains(#[trigger] r@[i])
+            &&& forall|i: int, j: int| 0 <= i < j < r@.len() ==> #[trigger] r@[i] != #[trigger] r@[j]
+            &&& forall|k: K| s@.contains(k) ==> exists|i: int| 0 <= i < r@.len() && #[trigger] r@[i] == k
+        },
+{ s.into_iter().collect() }
